@@ -1610,7 +1610,8 @@ func (t *tScreen) parseXtermMouse(buf *bytes.Buffer, evs *[]Event) (bool, bool) 
 			}
 			state++
 		case 3:
-			btn = int(b[i])
+			// like the coordinates, the button code is offset by 32
+			btn = int(b[i]) - 32
 			state++
 		case 4:
 			x = int(b[i]) - 32 - 1
@@ -1620,6 +1621,21 @@ func (t *tScreen) parseXtermMouse(buf *bytes.Buffer, evs *[]Event) (bool, bool) 
 			for i >= 0 {
 				_, _ = buf.ReadByte()
 				i--
+			}
+			// same press / drag / release handling as for SGR records;
+			// a release is reported as button code 3
+			motion := (btn & 32) != 0
+			scroll := (btn & 0x42) == 0x40
+			btn &^= 32
+			if motion {
+				if !t.buttondn {
+					btn |= 3
+					btn &^= 0x40
+				}
+			} else if btn&3 == 3 && !scroll {
+				t.buttondn = false
+			} else if !scroll {
+				t.buttondn = true
 			}
 			*evs = append(*evs, t.buildMouseEvent(x, y, btn))
 			return true, true
